@@ -524,16 +524,16 @@ func (up *SyncClient) sendNodesRemote(node data.NodeEdge) error {
 }
 
 // sendNodesLocal is used to send node and children over nats
-// from one NATS server to another. Typically from the current instance
-// to an upstream.
+// from one NATS server to another. Typically from the upstream
+// to the current instance.
 func (up *SyncClient) sendNodesLocal(node data.NodeEdge) error {
 	err := SendNode(up.ncLocal, node, up.config.ID)
 	if err != nil {
 		return err
 	}
 
-	// process child nodes
-	childNodes, err := GetNodes(up.nc, node.ID, "all", "", false)
+	// process child nodes, they live where the node came from
+	childNodes, err := GetNodes(up.ncRemote, node.ID, "all", "", false)
 	if err != nil {
 		return fmt.Errorf("Error getting node children: %v", err)
 	}
